@@ -878,7 +878,12 @@ impl Module for M {
          {-400,-360,-270,-180,-135,-90,-45,-1,0,1,45,90,135,180,270,359,360,400} degrees x 2 positions, plus larger diameters \
          (31,64,127,128) on a coarser angle grid and seeded random fractional angles (milli-degrees) at random positions; thorough = \
          1-degree grids (all starts x 12 sweeps and all sweeps -400..=400 x 4 starts for d = 11, 40; reduced for d = 127, 128) and 5000 \
-         random fractional angle pairs with diameters up to 128. Non-trivial: diameter >= 1; distinct = distinct op text. \
+         random fractional angle pairs with diameters up to 128; for C18 also half-degree angles (k.5 degrees, +-1 milli-degree) at d = 127, 128. \
+         Non-trivial: diameter >= 1; distinct = distinct op text. \
+         sector.consts / sector.trig / sector.fxpoints (C18, fixed_point build only; raw I16F16 angles): every whole degree -720..=720 as start and as \
+         sweep, raw values -2..=3 around every rounding boundary of the whole degree for k = -722..=722 (as start, sweep and end angle), +-3 around 0, \
+         PI/2, PI, 3PI/2, TAU, the bevel limits, 2^24, the overflow limits of `180 * angle` and `angle + PI/2`, i32::MIN/MAX, all pairs of these base \
+         values, 6000 (thorough 120000) random pairs from mixed ranges, and 150 (thorough 2500) sector.fxpoints shapes. Non-trivial: no panic. \
          sector.sarc / sector.ssector (C01, C02, C07): diameters {0,1,2,3,5,8,13,20} x start angles on a 45-degree grid x sweeps \
          {-400,-360,-270,-180,-90,-45,-1,0,1,30,90,135,180,270,359,360,400} degrees x stroke widths {0,1,2,3,5} x 3 alignments x 4 colour \
          options, quick = a hash-selected third of the pairs that can paint something and a ninth of the others (thorough = all) at 2 positions with rotating target boxes (C01: \
